@@ -200,11 +200,11 @@ PLANS["C09"] = P(
     required={"verify.lenient.time": 300, "verify.accept": 50, "scn.model.agrees": 500},
     rule="cases = behaviours of MC_time: exp in {absent, null, string, negative, now-10y .. now+63y} x nbf in {absent, past, now+30s .. now+10y} x clock positions {0, +2h} "
          "x key binding {off, on}, replayed over the key matrix in both serializations with instants set relative to the wall clock read by the driver; the trace "
-         "clauses use the logged interval [t0, t1]; offsets inside the 120 s guard band are generated and not asserted; distinct = distinct (exp, nbf, clock, KB) tuples",
-    assumptions=_A + ["the sandbox wall clock does not jump by more than the guard band during one call"],
+         "clauses use the logged interval [t0, t1]; instants between the two certain zones of the logged interval (exp in [t0-62, t1+2], nbf in [t0-2, t1+62]) are generated and not asserted; distinct = distinct (exp, nbf, clock, KB) tuples",
+    assumptions=_A + ["the sandbox wall clock does not step backwards during one call"],
 )
 MANIFEST_TEXT["C09"] = {
-    "text": "TimeVerdict(exp, nbf, [t0,t1]) in {reject, accept, free} with the 120 s guard band; TLC checks Inv_C09 on MC_time (all offset pairs x clock positions x KB). Behaviours are replayed "
+    "text": "TimeVerdict(exp, nbf, [t0,t1]) in {reject, accept, free}: exp < t0 - 60 - 2 or nbf > t1 + 60 + 2 must be rejected, exp > t1 + 2 with nbf absent or < t0 - 2 must not be rejected for temporal reasons; TLC checks Inv_C09 on MC_time (all offset pairs x clock positions x KB). Behaviours are replayed "
             "with real instants relative to the wall clock and validated by TLC: verdict reject obliges the implementation to reject (verify.lenient.time), accept obliges it to accept (verify.accept).",
     "note": _NOTE, "technique": "TLA+ bounded model checking (TLC) + scenario replay + trace validation"}
 
